@@ -1,9 +1,9 @@
-CONSTANT P = 5
+CONSTANT P = 17
 CONSTANT ALPHA = 3
-CONSTANT GEN = 2
-CONSTANT DropKind = "none"
-CONSTANT DropIdx = 0
-CONSTANT Cases <- Cases5
+CONSTANT GEN = 3
+CONSTANT DropKind = "basesum"
+CONSTANT DropIdx = 1
+CONSTANT Cases <- CasesBaseSum
 CONSTANT Sel = {}
 INIT InitRows
 NEXT NextRows
